@@ -13,10 +13,13 @@ from . import common
 from .common import Ctx, LEAN, VERIF
 
 
+GROUP_TABLE_PROPS = {"C03", "C04", "C05", "C06", "C07", "C08", "C10"}
+
+
 def setup():
     from .extract import gen
-    st = gen.regen()
-    mods = [o["module"] for o in st["obligations"].values()]
+    st = gen.regen(groups=True)
+    mods = [o["module"] for o in st["obligations"].values()] + (st["groups"]["modules"] if st.get("groups") else [])
     ok, errs, out = common.lake_build([], timeout=6000)
     ok2, errs2, out2 = common.lake_build(mods, timeout=6000) if mods else (True, {}, "")
     if not (ok and ok2):
@@ -28,11 +31,14 @@ def setup():
     return 0
 
 
-def lean_phase(ctx: Ctx, status, prop_modules, kernels=(), extra_modules=()):
+def lean_phase(ctx: Ctx, status, prop_modules, kernels=(), extra_modules=(), gen_theorems=()):
     """Build and audit everything Lean-side the property depends on. Failures are recorded as broken
     obligations (never as violations by themselves: finish() decides after the failing-input search)."""
     targets = ["Driver"] + list(prop_modules) + list(extra_modules)
     gen_ob = {k: status["obligations"][k] for k in kernels if k in status["obligations"]}
+    # generated table obligations: (module, theorem) pairs
+    for i, (m, t) in enumerate(gen_theorems):
+        gen_ob[f"table{i}:{t}"] = {"module": m, "theorem": t}
     for k in kernels:
         st = status["kernels"].get(k, "not translated: unknown kernel")
         if st != "translated":
@@ -55,7 +61,12 @@ def lean_phase(ctx: Ctx, status, prop_modules, kernels=(), extra_modules=()):
         bad = o["module"] in errs
         ctx.obligations[o["theorem"]] = not bad
         theorems.append(o["theorem"])
-        if bad:
+        if bad and k.startswith("table"):
+            ctx.fail("tgen:" + o["theorem"], f"T-gen obligation {o['theorem']} (kernel-decided table check) no longer "
+                     "checks: " + "; ".join(errs[o["module"]][:2]), {"theorem": o["theorem"],
+                                                                     "errors": errs[o["module"]][:5]},
+                     found_input=False, kind="obligation")
+        elif bad:
             ctx.fail("tast:" + k, f"T-ast obligation {o['theorem']} (generated kernel = model) no longer checks: "
                      + "; ".join(errs[o["module"]][:2]), {"kernel": k, "errors": errs[o["module"]][:5]},
                      found_input=False, kind="obligation")
@@ -101,7 +112,7 @@ def main(argv=None):
     ctx = Ctx(prop, a.tier, seed, replay=a.replay)
     try:
         from .extract import gen
-        status = gen.regen()
+        status = gen.regen(groups=prop in GROUP_TABLE_PROPS)
         mod = importlib.import_module(f"harness.props.{prop.lower()}")
         rc = mod.run(ctx, status)
         return rc
